@@ -127,10 +127,13 @@ func (s boolSyms) idx(name string) int {
 	return -1
 }
 func (s boolSyms) GetSymbolType(name string) (ast.NodeType, bool) {
+	if name == "zn" {
+		return ast.NodeTypeInt64, true // an int symbol whose value is always null
+	}
 	return ast.NodeTypeBool, s.idx(name) >= 0
 }
 func (s boolSyms) GetSetSymbolTypes(string) ast.SymbolTypes { return nil }
-func (s boolSyms) IsSet(name string) (bool, bool)           { return false, s.idx(name) >= 0 }
+func (s boolSyms) IsSet(name string) (bool, bool)           { return false, s.idx(name) >= 0 || name == "zn" }
 func (s boolSyms) EvalBool(name string) *bool {
 	b := s.assign&(1<<uint(s.idx(name))) != 0
 	return &b
@@ -139,7 +142,7 @@ func (s boolSyms) EvalString(string) *string                             { retur
 func (s boolSyms) EvalInt64(string) *int64                               { return nil }
 func (s boolSyms) EvalFloat64(string) *float64                           { return nil }
 func (s boolSyms) EvalDatetime(string) *time.Time                        { return nil }
-func (s boolSyms) IsNil(string) bool                                     { return false }
+func (s boolSyms) IsNil(name string) bool                                { return name == "zn" }
 func (s boolSyms) OpenSetCursor(string) ast.SetCursor                    { return ast.NewEmptyCursor() }
 func (s boolSyms) OpenSetCursorForQuery(string, ast.Query) ast.SetCursor { return ast.NewEmptyCursor() }
 
@@ -221,6 +224,40 @@ func runC12(c c12Case) kit.Result {
 			res.Err = fmt.Errorf("query %q (skeleton %s) under assignment %0*b (bit i = atom %s..): got %v, standard grouping gives %v", text, canonical, n, assign, "a", got, want)
 			return res
 		}
+	}
+
+	// the same skeleton with constant atoms, one query per assignment: an atom that is true under the assignment is
+	// spelled as a constant-true atom, a false one as a constant-false atom. Three families of spellings: the literals
+	// true / false; a range test on an always-null number (null makes "between" false and "not between" true); both
+	// alternating by atom position. The value of the query must be the skeleton's value under that assignment.
+	if n <= 3 && !respelled {
+		// (skeletons of up to three atoms in their canonical spelling: parsing is the expensive part)
+		for fam := 0; fam < 3; fam++ {
+			for assign := uint(0); assign < 1<<uint(n); assign++ {
+				constAtom := func(i int) []kit.Item {
+					val := assign&(1<<uint(i)) != 0
+					if fam == 0 || fam == 2 && i%2 == 0 {
+						return []kit.Item{kit.Kw(map[bool]string{true: "true", false: "false"}[val])}
+					}
+					items := []kit.Item{kit.Sym("zn"), kit.WsPlus()}
+					if val {
+						items = append(items, kit.Kw("not"), kit.WsPlus())
+					}
+					return append(items, kit.Kw("between"), kit.WsPlus(), kit.Lit("1"), kit.WsPlus(), kit.Kw("and"), kit.WsPlus(), kit.Lit("3"))
+				}
+				ctext := pad(&c, kit.Spell(c.Skel.items(constAtom, c.Full, ""), spellChoice(&c)))
+				cq, err := ast.Parse(boolSyms{}, ctext)
+				if err != nil {
+					res.Err = fmt.Errorf("skeleton %q with constant atoms (spelled %q) rejected: %v", canonical, ctext, err)
+					return res
+				}
+				if got, want := cq.EvalBool(boolSyms{}), c.Skel.eval(assign); got != want {
+					res.Err = fmt.Errorf("query %q (skeleton %s with its atoms replaced by constants for assignment %0*b): got %v, standard grouping gives %v", ctext, canonical, n, assign, got, want)
+					return res
+				}
+			}
+		}
+		res.Classes = append(res.Classes, "constant-atom-spellings")
 	}
 
 	if c.Data != nil && len(c.Atoms) >= n {
